@@ -11,7 +11,8 @@ documented intent (computed from the call HISTORY) is Expected.
    Inv_OptionsRouteOnly / Inv_CorsValues for every builder sequence of <= 4 (thorough 5) calls over 2 patterns x
    2 handler kinds x 2 Cors values x 2 host patterns; for every Cors builder chain of <= 3 (thorough 4) calls x 7
    handler kinds (header computation); and, history-free (VIEW), for builder sequences of ANY length within
-   structural bounds. 18 plausible bugs (Dev) must each violate (sensitivity; "no violation" = ToolError).
+   structural bounds. 18 plausible bugs (Dev; quick: 8 of them) must each violate (sensitivity; "no violation" =
+   ToolError).
 2. spec -> code: TLC prints every builder history of <= 3 calls (thorough: <= 4 over a narrower alphabet) and, by
    -simulate, random histories of 9 calls, each with Expected for 36 requests (GET/OPTIONS/POST x 4 Host values
    x 3 paths); harness/src/bin/cors.rs (threaded) and harness-tokio/src/bin/cors.rs build the REAL App through
@@ -39,6 +40,9 @@ DEVS = ["CorsOnlyFuture", "CorsOnlyExisting", "NewRouteIgnoresSubCors", "ConfigF
         "ConfigSetsSubCors", "AppCorsAllHosts", "AppConfigAllHosts", "DefSubKeepsOldCors", "ErrorGetsCors",
         "OptionsNoCors", "OptionsRunsHandler", "OverrideHandler", "DuplicateHandler", "MethodsWildcardStar",
         "OriginsLastOnly", "HeadersGuardChecksMethods", "OriginAfterWildcardResets"]
+# quick runs one representative per class (builder override, pattern selection, host scope, OPTIONS branch, handler-set headers, values)
+QUICK_DEVS = ["CorsOnlyFuture", "CorsOnlyExisting", "ConfigByMatch", "AppCorsAllHosts", "OptionsNoCors", "OverrideHandler",
+              "DuplicateHandler", "MethodsWildcardStar"]
 
 
 def _tlc(module, cfg, **kw):
@@ -64,18 +68,19 @@ def run_part(ctx, tier):
         job("mc", "CORS builder sequences <= 5 calls", "MC_Cors.tla", "MC_Cors_thorough.cfg", workers=8, heap="8g")
         job("mccov", "CORS builder sequences <= 4 calls (action coverage)", "MC_Cors.tla", "MC_Cors_quick.cfg", workers=4, coverage=True)
         job("values", "CORS header computation: chains <= 4 x 7 handler kinds", "MC_Cors.tla", "MC_Cors_values_thorough.cfg", workers=4)
-        job("deep", "CORS builder sequences of any length (VIEW, <= 1 route per sub-app, 2 Cors values, 1 host)", "MC_Cors.tla", "MC_Cors_deep_quick.cfg", workers=4)
+        job("deep", "CORS builder sequences of any length (VIEW, <= 1 route per sub-app, 2 Cors values, 1 host)", "MC_Cors.tla", "MC_Cors_deep_mid.cfg", workers=4)
         job("deep2", "CORS builder sequences of any length (VIEW, <= 2 routes per sub-app, 1 Cors value, 1 host)", "MC_Cors.tla", "MC_Cors_deep_thorough.cfg", workers=4)
         job("gen", "CORS vector generation Gen_Cors_thorough", "MC_Cors.tla", "Gen_Cors_thorough.cfg", workers=1, heap="6g")
         job("gen3", "CORS vector generation Gen_Cors_quick", "MC_Cors.tla", "Gen_Cors_quick.cfg", workers=1)
     else:
         job("mccov", "CORS builder sequences <= 4 calls", "MC_Cors.tla", "MC_Cors_quick.cfg", workers=6, coverage=True)
         job("values", "CORS header computation: chains <= 3 x 7 handler kinds", "MC_Cors.tla", "MC_Cors_values_quick.cfg", workers=2)
-        job("deep", "CORS builder sequences of any length (VIEW, <= 1 route per sub-app, 1 host)", "MC_Cors.tla", "MC_Cors_deep_quick.cfg", workers=3)
+        job("deep", "CORS builder sequences of any length (VIEW, <= 1 route per sub-app, 2 Cors values, 1 handler kind, 1 host)", "MC_Cors.tla", "MC_Cors_deep_quick.cfg", workers=3)
         job("gen3", "CORS vector generation Gen_Cors_quick", "MC_Cors.tla", "Gen_Cors_quick.cfg", workers=1)
     job("sim", "CORS random histories of 9 calls (TLC -simulate)", "MC_Cors.tla", "Sim_Cors.cfg", workers=1,
         simulate=1500 if thorough else 250, depth=12, seed_val=ctx.seed)
-    for d in DEVS:
+    devs = DEVS if thorough else QUICK_DEVS
+    for d in devs:
         job("dev:" + d, "CORS sensitivity Dev={%s}" % d, "MC_Cors.tla", "MC_Cors_dev_%s.cfg" % d, workers=1, heap="1g", timeout=600)
 
     res = {}
@@ -90,7 +95,7 @@ def run_part(ctx, tier):
             ctx.add_tlc(note, r)
             ctx.require_tlc_ok(key, r)
     ctx.require_cover("MC_Cors_quick", res["mccov"][1], ACTIONS)
-    for d in DEVS:
+    for d in devs:
         note, r = res["dev:" + d]
         ctx.add_tlc(note, r)
         if r.violation != "invariant":
@@ -124,17 +129,32 @@ def run_part(ctx, tier):
     for v in vectors:
         uniq.setdefault(json.dumps(v["calls"], sort_keys=True), v)
     vectors = list(uniq.values())
-    data = json.dumps({"reqs": reqs}) + "\n" + "\n".join(json.dumps(v, separators=(",", ":")) for v in vectors) + "\n"
+    # Every App::run leaves its pool's detached recovery thread behind (thread/recovery.rs: it never ends), so one
+    # harness process is given at most CHUNK apps.
+    CHUNK = 2500
+    head = json.dumps({"reqs": reqs}) + "\n"
+    chunks = [head + "\n".join(json.dumps(v, separators=(",", ":")) for v in vectors[i:i + CHUNK]) + "\n"
+              for i in range(0, len(vectors), CHUNK)]
 
     def replay(rt):
-        p = run_bin(exes[rt], ["replay", "--workers", "8"], stdin_data=data, timeout=1500)
-        s = [x for x in parse_jsonl(p.stdout) if x.get("summary")]
-        if p.returncode != 0 or not s:
-            raise vlib.ToolError("cors replay (%s) rc=%s: %s" % (rt, p.returncode, p.stderr[-1500:]))
-        return s[0]
+        tot = None
+        for data in chunks:
+            p = run_bin(exes[rt], ["replay", "--workers", "8"], stdin_data=data, timeout=1500)
+            s = [x for x in parse_jsonl(p.stdout) if x.get("summary")]
+            if p.returncode != 0 or not s:
+                raise vlib.ToolError("cors replay (%s) rc=%s: %s" % (rt, p.returncode, p.stderr[-1500:]))
+            s = s[0]
+            if tot is None:
+                tot = s
+            else:
+                for k in ("jobs", "skipped_defsub", "apps", "requests", "mismatches", "nontrivial", "errors", "not_stopped"):
+                    tot[k] += s[k]
+                for k in ("first_errors", "first", "samples"):
+                    tot[k] = (tot[k] + s[k])[:10]
+        return tot
 
     def rand(rt):
-        napps = 2500 if thorough else 350
+        napps = 2400 if thorough else 350
         p = run_bin(exes[rt], ["random", str(napps), "12", "--workers", "8"], timeout=1500)
         recs = parse_jsonl(p.stdout)
         summ = [x for x in parse_jsonl(p.stderr) if x.get("summary")]
